@@ -20,12 +20,11 @@
      gen_correct_partial_print  : ONE {print e|d..} with d over id / noAutoescape / escapeHtml, under any
                                   autoescape mode (implicit soy.$$escapeHtml included) -- proved below, for
                                   values whose String() has no NUL and no double quote (finding quote-entity);
-     gen_correct_partial_stmt   : statements built from raw text, such prints, {let $x: e /}, {if}..{elseif}..{else}..{/if}
-                                  and {switch}..{case v, w}..{default}..{/switch} with nested blocks (sequences) of such
-                                  statements -- proved below as ONE simulation step over three sides (Interp walker,
-                                  MiniJS execution, JsGen chunks) that re-establishes its own hypotheses;
-                                  gen_correct_partial_if / _let / _switch are its instances by name;
-                                  {let $x}..{/let} (content form) -- not proved
+     gen_correct_partial_stmt   : statements built from raw text, such prints, {let $x: e /}, {let $x}..{/let},
+                                  {if}..{elseif}..{else}..{/if} and {switch}..{case v, w}..{default}..{/switch} with nested
+                                  blocks (sequences) of such statements -- proved below as ONE simulation step over three
+                                  sides (Interp walker, MiniJS execution, JsGen chunks) that re-establishes its own
+                                  hypotheses; gen_correct_partial_if / _let / _let_content / _switch are its instances by name
      gen_correct_partial_loops  : foreach / for / loop helpers   -- not proved
      gen_correct_partial_calls  : call / param / data=           -- not proved
      gen_correct_partial_msg    : msg / plural with a bundle     -- not proved
@@ -165,7 +164,9 @@ Theorem C04_gen_correct_partial_stmt : forall cf o st je jst s fuel text env' ol
 Proof. exact gen_correct_partial_stmt_unfolded. Qed.
 Print Assumptions C04_gen_correct_partial_stmt.
 
-(* its instances by stage name ([sim] is the conjunction of the hypotheses above, [sim_step] the conclusion above) *)
+(* its instances by stage name ([sim] is the conjunction of the hypotheses above, [sim_step] the conclusion above, both
+   for any writer that does not fail: the output without a budget, or a capture buffer of renderBlock -- [wrote st st' ws]
+   says the writes ws went to the innermost capture buffer if there is one, to the output otherwise) *)
 Theorem C04_gen_correct_partial_if : forall cf o st je jst c th rest fuel text env' old,
   c_oblig cf = [] -> (sdepth (SIf c th rest) < fuel)%nat -> sim cf st je jst old ->
   sout (c_ij cf) (mode st) go_print_text (sc_lookup (ctx st)) (SIf c th rest) = Some (text, env') ->
@@ -178,6 +179,14 @@ Theorem C04_gen_correct_partial_let : forall cf o st je jst name e fuel text env
   sim_step cf o st je jst (SLet name e) fuel text env' old.
 Proof. exact gen_correct_partial_let. Qed.
 Print Assumptions C04_gen_correct_partial_let.
+(* {let $x}..{/let}: the Go renderer captures the block in a buffer of its own (renderBlock) and binds the string; the
+   JavaScript declares  var x_n = '';  lets the block append to it, and binds the name afterwards *)
+Theorem C04_gen_correct_partial_let_content : forall cf o st je jst name body fuel text env' old,
+  c_oblig cf = [] -> (sdepth (SLetC name body) < fuel)%nat -> sim cf st je jst old ->
+  sout (c_ij cf) (mode st) go_print_text (sc_lookup (ctx st)) (SLetC name body) = Some (text, env') ->
+  sim_step cf o st je jst (SLetC name body) fuel text env' old.
+Proof. exact gen_correct_partial_let_content. Qed.
+Print Assumptions C04_gen_correct_partial_let_content.
 Theorem C04_gen_correct_partial_switch : forall cf o st je jst v cs fuel text env' old,
   c_oblig cf = [] -> (sdepth (SSwitch v cs) < fuel)%nat -> sim cf st je jst old ->
   sout (c_ij cf) (mode st) go_print_text (sc_lookup (ctx st)) (SSwitch v cs) = Some (text, env') ->
@@ -234,7 +243,7 @@ Example C04_print_esc_nonvacuous :
 Proof. vm_compute. repeat split; reflexivity. Qed.
 
 (* {if true}
-     {if $x > 3}{let $y: $x + 1 /}A{$y}{elseif $x > 1}E{else}B{/if}
+     {if $x > 3}{let $y: $x + 1 /}A{let $t}<{$y}{/let}{$t}{elseif $x > 1}E{else}B{/if}
      {switch $x}{case 1, 2}one{case 4}{let $z: 'four' /}{$z}{$a.b}{default}d{/switch}
      C
    {/if}            with x = 4 (generated variable x_3, counter 3), a.b = 5 *)
@@ -242,7 +251,7 @@ Definition ex_sc2 : list (list (bstr * bstr)) := [[(b "x", b "x_3")]].
 Definition ex_stmt : cstmt :=
   SIf (CBool true)
       (BCons (SIf (CBin OGt (CVar (b "x") []) (CInt 3))
-                  (BCons (SLet (b "y") (CBin OAdd (CVar (b "x") []) (CInt 1))) (BCons (SRaw (b "A")) (BCons (SPrint (CVar (b "y") []) []) BNil)))
+                  (BCons (SLet (b "y") (CBin OAdd (CVar (b "x") []) (CInt 1))) (BCons (SRaw (b "A")) (BCons (SLetC (b "t") (BCons (SRaw (b "<")) (BCons (SPrint (CVar (b "y") []) []) BNil))) (BCons (SPrint (CVar (b "t") []) []) BNil))))
                   (EElif (CBin OGt (CVar (b "x") []) (CInt 1)) (BCons (SRaw (b "E")) BNil) (EElse (BCons (SRaw (b "B")) BNil))))
       (BCons (SSwitch (CVar (b "x") [])
                 (KCase (CInt 1) [CInt 2] (BCons (SRaw (b "one")) BNil)
@@ -250,18 +259,21 @@ Definition ex_stmt : cstmt :=
                 (KDefault (BCons (SRaw (b "d")) BNil)))))
       (BCons (SRaw (b "C")) BNil))) ENone.
 Example C04_stmt_nonvacuous :
-  (match sout None 1 go_print_text ex_env ex_stmt with Some (t, _) => Some t | None => None end) = Some (b "A5four5C")
-  /\ snd (sgen 1 (b "output") ex_sc2 3 ex_stmt) = (ex_sc2, 5)
+  (match sout None 1 go_print_text ex_env ex_stmt with Some (t, _) => Some t | None => None end) = Some (b "A&lt;5four5C")
+  /\ snd (sgen 1 (b "output") ex_sc2 3 ex_stmt) = (ex_sc2, 6)
   /\ (match js_exec {| je_vars := [(b "output", JStr []); (b "x_3", JNum 4)]; je_data := JObj [(b "a", JObj [(b "b", JNum 5)])] |}
                      (fst (sgen 1 (b "output") ex_sc2 3 ex_stmt)) with
       | Ok je' => Some (je_vars je') | _ => None end)
-     = Some [(b "output", JStr (b "A5four5C")); (b "x_3", JNum 4); (b "y_4", JNum 5); (b "z_5", JStr (b "four"))]
+     = Some [(b "output", JStr (b "A&lt;5four5C")); (b "x_3", JNum 4); (b "y_4", JNum 5); (b "t_5", JStr (b "<5")); (b "z_6", JStr (b "four"))]
   /\ render_chunks is_print_tbl (sprint 1 (fst (sgen 1 (b "output") ex_sc2 3 ex_stmt))) = b
 "  if (true) {
     if (((x_3) > (3))) {
       var y_4 = ((x_3) + (1));
       output += 'A';
-      output += soy.$$escapeHtml(y_4);
+      var t_5 = '';
+      t_5 += '\u003C';
+      t_5 += soy.$$escapeHtml(y_4);
+      output += soy.$$escapeHtml(t_5);
     } else if (((x_3) > (1))) {
       output += 'E';
     } else {
@@ -273,8 +285,8 @@ Example C04_stmt_nonvacuous :
         output += 'one';
         break;
       case 4:
-        var z_5 = 'four';
-        output += soy.$$escapeHtml(z_5);
+        var z_6 = 'four';
+        output += soy.$$escapeHtml(z_6);
         output += soy.$$escapeHtml(opt_data.a.b);
         break;
       default:
